@@ -88,7 +88,7 @@ Init ==
 (* ---- helpers ---------------------------------------------------------- *)
 CanLock(p, m)  == ~Mutexes \/ mu[m] = "" \/ mu[m] = p
 Holding(p, m)  == IF Mutexes THEN [mu EXCEPT ![m] = p] ELSE mu
-Released(p, m) == IF Mutexes THEN [mu EXCEPT ![m] = ""] ELSE mu
+Released(p, m) == IF Mutexes /\ mu[m] = p THEN [mu EXCEPT ![m] = ""] ELSE mu   \* only the holder's unlock has an effect
 Label(p, c)    == last' = <<p, c>>
 Goto(p, l)     == pc' = [pc EXCEPT ![p] = l]
 Finish(p, r)   == pc' = [pc EXCEPT ![p] = "done"] /\ res' = [res EXCEPT ![p] = r]
